@@ -17,7 +17,7 @@ from .. import rig as R, ref, gen, dump, env
 from ..orch import h
 
 ID = "C20"
-TECHNIQUE = 'runtime monitoring - exactly-once / no-loss checker over unique ids between real NotifyServer and NotifyClients through a re-chunking TCP proxy (all split positions, coalescing, dribble, resets in both directions), stretched commits, resubmissions, start-up matrix of configurations'
+TECHNIQUE = 'runtime monitoring - exactly-once / no-loss checker over unique ids between real NotifyServer and NotifyClients through a re-chunking TCP proxy (all split positions, coalescing, dribble, resets in both directions), stretched commits, resubmissions, start-up matrix of configurations; end-to-end shard: real gunicorn worker PROCESSES (2-3) on SQLite and on LMDB, connections placed on workers by /proc observation, exactly-once judgement of every (accepted event, subscriber) pair across workers, resubmissions to another worker'
 LEVEL = "exploration"
 RULE = (
     "cases = (number of workers 2-5, 60-400 announced ids with random origin, burst or paced, chunk plan per link in "
